@@ -143,7 +143,33 @@ def replay_process_queue(w, rec):
   if errs2 or leaked:
     text.append('waiter timed out while queued: _ProcessQueue raised %s; connection cached=%s closed=%s used=%s, _current_size=%d (capacity lost)' % (
       errs2, c in pool._cache, c.closed, bool(c.requests), pool._current_size))
-  return bool(text), '\n'.join(text) if text else 'both scenarios handled: the connection is given to a live waiter or released'
+  # (c) nobody is waiting and the pool is above its low watermark: the connection must be released through the
+  #     pool's accounting (closed and un-counted), not retained
+  objs = w.get('objects', {}) if isinstance(w, dict) else {}
+  selfo = objs.get((w.get('params', {}).get('self') or {}).get('ref'), {}) if objs else {}
+  lo = selfo.get('_min_size')
+  lo = lo if isinstance(lo, int) and 0 <= lo <= 3 else 1
+  for lo_ in sorted(set([lo, 0, 1])):
+    pool = make_pool(lo_, lo_ + 2, 10)
+    cached = [StubSink('cached%d' % k) for k in range(lo_)]
+    for x in cached:
+      pool._cache.append(x)
+    d = StubSink('connD')
+    pool._current_size = lo_ + 1
+    try:
+      pool._ProcessQueue(d)
+    except Exception as e:
+      text.append('no waiter, low watermark %d: _ProcessQueue raised %s: %s' % (lo_, type(e).__name__, e))
+      continue
+    open_now = [x for x in list(pool._cache) if not x.closed]
+    if d in pool._cache and len(pool._cache) > lo_:
+      text.append('no waiter, low watermark %d, %d connections existing: the released connection was retained (cache=%d, _current_size=%d) instead of being closed' % (
+        lo_, lo_ + 1, len(pool._cache), pool._current_size))
+    elif d not in pool._cache and not d.closed:
+      text.append('no waiter, low watermark %d: the released connection is neither cached nor closed' % lo_)
+    elif pool._current_size != len(pool._cache):
+      text.append('no waiter, low watermark %d: _current_size=%d but %d connections exist' % (lo_, pool._current_size, len(pool._cache)))
+  return bool(text), '\n'.join(text) if text else 'all scenarios handled: the connection is given to a live waiter or released'
 
 
 def replay_get(w, rec):
